@@ -110,4 +110,30 @@ PROPS = {
                                      "std::sync::Mutex / spin::Mutex internals are trusted"],
         "outside": ["hardware memory models weaker than SC", "the randomized real-thread stress half of the quantifier (used only as native replay of a solver counterexample)", "more than 4 threads x 3 calls"],
     },
+    "C05": {
+        "mirsym": ["eval_generic"],
+        "bounds": {"quick": "trait-shape family (8 shapes quick): &self with (u8, &mut u16, &str); 5 mixed parameters; Rc<Self>; trait-level generic at u16; async fn with &mut parameter; RPIT future; flattened api — each for ALL argument values; one or two calls per shape; scripted evaluator in place of the runtime",
+                   "thorough": "same family (the &mut self / Pin<&mut Self> / by-value shapes are disabled: Kani does not terminate on their polonius-based expansion / teardown within 10 minutes)"},
+        "assumptions": COMMON_KANI + COMMON_MIR + ["unimock::private::eval is replaced (kani::stub) by a per-harness scripted evaluator that returns Continuation::Answer(the harness' typed answer function) with the inputs untouched; that the real eval hands the inputs back unchanged is the E1 unit eval_generic"],
+        "outside": ["shapes outside the family, in particular &mut self, Pin<&mut Self> and by-value receivers (tool limit, measured)", "method-level generics and impl-Trait parameters", "async runtimes (futures are polled by hand with a no-op waker)"],
+    },
+    "C15": {
+        "mirsym": ["eval_dyn", "delegators", "teardown"],
+        "bounds": {"quick": "&self provided method whose body calls a required method twice: all argument values, one call; decision table of eval_dyn for unmentioned / mentioned methods with a default body (see C07)"},
+        "assumptions": COMMON_KANI + COMMON_MIR + ["scripted evaluator: first evaluation answers CallDefaultImpl, nested ones answer with a typed function and record the state identity they were given",
+                                                   "once_cell::sync::OnceCell replaced by once_cell's unsync cell under cfg(kani) (helper initialisation)"],
+        "outside": ["&mut self, by-value, Rc/Arc and Pin<&mut Self> receivers (Kani: teardown of the helper clone does not terminate; their release order is decided by the C09/C11 teardown unit)", "that counters/slots are then shared follows from the shared state identity (same step function, C01/C04)"],
+    },
+    "C16": {
+        "mirsym": ["eval_dyn", "induce_panic"],
+        "bounds": {"quick": "unmock_with in three forms (skip `_`, path, path(params)) at list positions 0..2 of a 3-method trait, sync and async: all argument values; recursion depth 1 through the mock; fall-through decisions: eval_dyn table (C07); missing function -> CannotUnmock recorded: induce_panic unit"},
+        "assumptions": COMMON_KANI + COMMON_MIR + ["scripted evaluator answering Continuation::Unmock"],
+        "outside": ["recursion depth > 1", "trait shapes outside the family"],
+    },
+    "C19": {
+        "mirsym": ["call_path", "eval_dyn", "counter_verify"],
+        "bounds": {"quick": "mismatch positions: the guard-free single-alternative members of pattern family G6 (C06 harnesses, diagnostics on) for all argument values; debug_inputs for 4 method shapes; pattern text/location for 3 invocations; which pattern index / operands an error names: E1 units"},
+        "assumptions": COMMON_KANI + COMMON_MIR,
+        "outside": ["rendered message text (formatting is stubbed under Kani and opaque for E1): wording, separators, '?' glyph", "file!()/line!() values beyond equality with the invocation site"],
+    },
 }
